@@ -26,6 +26,8 @@ def char_classes(text):
             cls.add("CR")
         elif ch == "\t":
             cls.add("tab")
+        elif o == 0:
+            cls.add("NUL")
         elif o < 32 and ch != "\n":
             cls.add("control")
         elif o == 0x7f:
@@ -120,7 +122,7 @@ def main(tier, replay, t0):
             if len(samples) < 3 and cls & {"dquote", "backslash", "CR"}:
                 samples.append({"classes": sorted(cls), "head": c.wgsl[:200]})
     inconclusive = []
-    need = {"dquote", "backslash", "brace", "CRLF", "control", "non-ascii-bmp", "non-bmp"}
+    need = {"dquote", "backslash", "brace", "CRLF", "control", "NUL", "non-ascii-bmp", "non-bmp"}
     if not need <= classes:
         inconclusive.append("character classes never generated: %s" % sorted(need - classes))
     core.finish("C16", tier, "exploration", t0, viol, {
@@ -133,6 +135,6 @@ def main(tier, replay, t0):
                 "class beyond plain ASCII",
         "samples": samples, "sources": n, "char_classes_hit": sorted(classes),
         "include_paths": sorted(paths_seen),
-    }, assumptions=["NUL cannot occur in a WGSL source naga accepts inside the language's "
-                    "tokens; it is generated only inside comments when naga accepts it"],
+    }, assumptions=["NUL and other control characters are generated inside comments (naga "
+                    "accepts them there); U+0085 is a line break for naga and is not used"],
         inconclusive=inconclusive)
